@@ -5688,8 +5688,9 @@ impl GraphEngine {
                     } else {
                         continue;
                     };
-                    // Avoid duplicates when direction is Both and edge is undirected
-                    if direction == Direction::Both && !edge.directed {
+                    // Avoid duplicates when direction is Both: an undirected edge and a
+                    // self-loop were already produced by the outgoing pass above
+                    if direction == Direction::Both && (!edge.directed || edge.from == edge.to) {
                         continue;
                     }
                     results.push((neighbor, edge_id));
